@@ -12,9 +12,10 @@ cp /verif/harness/Cargo.toml $W/harness/Cargo.toml; sed -i "s#path = \"/repo\"#p
 cp /verif/known_findings.json $W/vr/
 for s in "$@"; do
   [ -f "/verif/seeded/$s/patch.diff" ] || continue
+  PATCH="/verif/seeded/$s/patch.diff"; [ -f "/verif/seeded/$s/patch-rebased.diff" ] && PATCH="/verif/seeded/$s/patch-rebased.diff"
   ID=$(python3 -c "import json;print(json.load(open('/verif/seeded/$s/meta.json'))['property'])")
   IDS="${SEED_CHECKS:-$ID}"
-  git -C $W/repo apply "/verif/seeded/$s/patch.diff" 2>/dev/null || git -C $W/repo apply --3way "/verif/seeded/$s/patch.diff" 2>/dev/null || (cd $W/repo && patch -p1 -F3 -s < "/verif/seeded/$s/patch.diff") || { echo "$s: patch does not apply"; continue; }
+  git -C $W/repo apply "$PATCH" 2>/dev/null || git -C $W/repo apply --3way "$PATCH" 2>/dev/null || (cd $W/repo && patch -p1 -F3 -s < "$PATCH") || { echo "$s: patch does not apply"; continue; }
   for C in $IDS; do
     out=$($W/run "$C" --tier "$TIER" 2>&1); rc=$?
     sig=$(echo "$out" | grep -m1 "signature=" | sed 's/^ *//' | cut -c1-300)
